@@ -44,6 +44,7 @@ Inductive instr :=
                                              destination only with mov/cmp/test *)
 | IMov64 (d s : reg)                      (* mov r64, r64 *)
 | ICmpxchg (locked : bool) (s : reg)      (* [status] vs eax; new value in s (32-bit) *)
+| IXchg (s : reg)                         (* xchg [status], r32: atomic swap (implicitly locked) *)
 | ISetcc (c : cc) (r : reg)               (* setcc r8 (low byte of r) *)
 | IMovzx8 (d s : reg)                     (* movzx r32, r8 *)
 | ICmov (c : cc) (d s : reg)              (* cmovcc r32, r32 *)
@@ -161,6 +162,7 @@ Definition istep (o : N * N) (i : instr) (g : gst) (t : tstate) : gst * tstate :
           if z then (set_status g (getr t s), next t1)
           else (set_status g v, next (setr t1 RAX v))
       end
+  | IXchg s => (set_status g (getr t s), next (setr t s (status g)))
   | ISetcc c r =>
       let old := getr t r in
       (g, next (setr t r (N.lor (N.land old (N.lnot 255 64)) (if cond t c then 1 else 0))))
